@@ -323,6 +323,8 @@ theorem handle_no_panic (f : Fixes) (hf : MdmFixed f) (hs : f.revisionSum = true
     (handle f s r).1 ≠ .panic k site := by
   unfold handle
   split
+  · rename_i h; simp [hs] at h
+  split
   · have hne := exec_no_panic f hf r.pdLen r.rd r.prices r.duration r.prog hp
       { budget := r.budget, spent := r.initCost } s.roots 0 []
     generalize execInstrs f r.pdLen r.rd r.prices r.duration { budget := r.budget, spent := r.initCost } s.roots 0 [] r.prog = eo at hne
@@ -433,8 +435,8 @@ theorem slices_in_bounds_instr_partial' (f : Fixes) (h1 : f.pdOverflow = false) 
       simp only [wrap, U64, SectorSize] at hl hc hcnt hn ⊢
       intro _
       refine ⟨⟨by omega, by omega⟩, by omega, Or.inr ⟨⟨by omega, ?_⟩, ?_⟩, fun _ => ⟨⟨by omega, by omega⟩, trivial⟩⟩
-      · simp only [decide_eq_false_iff_not]; omega
-      · simp only [decide_eq_false_iff_not]; omega
+      · exact decide_eq_false (by omega)
+      · exact decide_eq_false (by omega)
   | hasSector rootOff =>
     simp only [CurrentOK] at hc
     simp only [instrSteps, pdHash, pdFixed, pdCheck, h1, Safe, if_true, List.cons_append, List.nil_append,
@@ -551,6 +553,8 @@ theorem reject_noop_refused (f : Fixes) (s s' : HostState) (r : Request)
     (h : handle f s r = (.refused, s')) : s' = s := by
   unfold handle at h
   split at h
+  · simp at h
+  split at h
   · generalize execInstrs f r.pdLen r.rd r.prices r.duration { budget := r.budget, spent := r.initCost } s.roots 0 [] r.prog = eo at h
     cases eo with
     | panic k' s' => simp [settle] at h
@@ -574,6 +578,8 @@ theorem reject_noop_failed (f : Fixes) (s s' : HostState) (r : Request) (k : Nat
     (k = r.prog.length → s' = s) ∧ k ≤ r.prog.length := by
   unfold handle at h
   split at h
+  · simp at h
+  split at h
   · rename_i hadm
     have hinit : r.initCost ≤ r.budget := by
       simp only [admitted, Bool.and_eq_true, decide_eq_true_eq] at hadm; exact hadm.1.2
@@ -587,8 +593,8 @@ theorem reject_noop_failed (f : Fixes) (s s' : HostState) (r : Request) (k : Nat
       simp [settle] at h
       obtain ⟨⟨rfl, _⟩, rfl⟩ := h
       simp at this ⊢
-      trace_state
-      sorry
+      refine ⟨by omega, ?_, by omega⟩
+      intro hk; omega
     | done a roots outs' =>
       simp only [settle] at h
       split at h
@@ -604,6 +610,8 @@ theorem reject_noop_failed (f : Fixes) (s s' : HostState) (r : Request) (k : Nat
 theorem panic_state (f : Fixes) (s s' : HostState) (r : Request) (k : Nat) (site : Site)
     (h : handle f s r = (.panic k site, s')) : s' = s := by
   unfold handle at h
+  split at h
+  · simp at h; exact h.2.symm
   split at h
   · generalize execInstrs f r.pdLen r.rd r.prices r.duration { budget := r.budget, spent := r.initCost } s.roots 0 [] r.prog = eo at h
     cases eo with
@@ -623,6 +631,8 @@ theorem panic_state (f : Fixes) (s s' : HostState) (r : Request) (k : Nat) (site
 theorem accept_charge (f : Fixes) (s s' : HostState) (r : Request) (outs : List (Option Nat))
     (h : handle f s r = (.accept outs, s')) : s'.balance ≤ s.balance ∧ s.balance - s'.balance ≤ r.budget := by
   unfold handle at h
+  split at h
+  · simp at h
   split at h
   · rename_i hadm
     have hinit : r.initCost ≤ r.budget := by
@@ -942,6 +952,10 @@ example : v2Form Fixes.none 1 2 5 true = .reject := by decide
 
 /-- the payment revision whose output sum exceeds 2^128 (validateStdRevision; owned by C07, reachable here) -/
 theorem v2_sumOverflow_panics : v2Roots Fixes.none 3 0 1 .sumOverflow true = .panic .validateStdRevision := by decide
+theorem payByContract_sumOverflow_panics :
+    (handle Fixes.none { rev := 6, roots := [1], balance := 100 }
+      { pay := .sumOverflow, budget := 50, hasContract := false, pdLen := 32, rd := rdOf [], prog := [ { i := .hasSector 0, cost := 10 } ] }).1
+      = .panic 0 .validateStdRevision := by decide
 theorem finalize_sumOverflow_panics :
     (handle Fixes.none { rev := 6, roots := [1], balance := 100 }
       { budget := 50, hasContract := true, pdLen := SectorSize, rd := rdOf [], prog := [ { i := .appendSector 0 false, cost := 10 } ],
@@ -959,9 +973,8 @@ theorem updater_no_panic (roots : List Nat) (fresh : Nat) (op : UOp) (s : Site) 
   unfold updater
   split
   · simp
-  · rename_i o hne
-    intro h; simp only at h; subst h
-    exact run_no_panic _ (slices_in_bounds_updater roots.length op) _ s (by assumption)
+  · intro h; simp only at h
+    exact run_no_panic _ (slices_in_bounds_updater roots.length op) _ s h
 
 /-- **reject_noop (ContractUpdater)**: a rejected updater call leaves the private list as it was;
 the manager's list is never touched before `Commit` (the updater is a value here, a deep copy in Go) -/
@@ -993,9 +1006,14 @@ theorem recorder_partial (f : Fixes) : Safe (recorderFlush f 0 0) := by simp [re
 /-- **slices_in_bounds (costs)**: with unit prices below 2^40 H no renter-chosen uint64 operand overflows `Currency.Mul64` -/
 theorem cost_no_panic (fn : CostFn) (p1 p2 arg : Nat) (h1 : p1 < 1099511627776) (h2 : p2 < 1099511627776) (ha : arg < U64) :
     Safe (costSteps fn p1 p2 arg) := by
-  cases fn <;> simp only [costSteps, Safe] <;> safe_auto
+  cases fn <;> simp only [costSteps, Safe] <;>
+    first
+      | exact ⟨mul_small h1 ha, mul_small h2 ha, trivial⟩
+      | exact ⟨mul_small h1 ha, trivial⟩
+      | exact ⟨mul_smallS h1, mul_small2 h1 ha, trivial⟩
+      | exact ⟨mul_smallS h1, mul_small2 h1 ha, mul_smallS h2, mul_small2 h2 ha, trivial⟩
 
-/-- an operator who configured a unit price of 2^64 H/byte makes `ReadOffsetCost(length)` panic on a renter-chosen length -/
-theorem cost_panics_huge_price : run { budget := 0 } (costSteps .readOffset U64 0 (U64 - 1)) = .panic .executeReadOffset := by decide
+/-- an operator who configured a unit price of 2^65 H/byte makes `ReadOffsetCost(length)` panic on a renter-chosen length -/
+theorem cost_panics_huge_price : run { budget := 0 } (costSteps .readOffset (2 * U64) 0 (U64 - 1)) = .panic .executeReadOffset := by decide
 
 end Hostd.Mdm
